@@ -15,6 +15,16 @@ fn main() {
         .and_then(|r| r.split('"').next())
         .expect("path of redis-sim in Cargo.toml")
         .to_string();
+    // optional verification hooks of the tree this harness is built against:
+    //   cfg `verif_h1c` = `production::verif_hooks::encode_reply` (hook H1c) is present.
+    // (./check C15 reports `C15:coverage:hook-h1c-absent` when it is not: encoders 3 and 4 would
+    // silently go undriven.)
+    println!("cargo:rustc-check-cfg=cfg(verif_h1c)");
+    let hooks = PathBuf::from(&dep).join("src/production/mod.rs");
+    println!("cargo:rerun-if-changed={}", hooks.display());
+    if fs::read_to_string(&hooks).map(|s| s.contains("pub fn encode_reply")).unwrap_or(false) {
+        println!("cargo:rustc-cfg=verif_h1c");
+    }
     let file = PathBuf::from(&dep).join("src/production/sharded_actor.rs");
     println!("cargo:rerun-if-changed={}", file.display());
     println!("cargo:rerun-if-changed=Cargo.toml");
